@@ -326,8 +326,9 @@ def enumerate_grammars(n_nt, terminals, max_alts=2, max_rhs=2, max_total=None, n
     Alternatives are listed in the canonical order (shorter first, then lexicographic in the symbol
     order nonterminals < terminals) unless ordered=True (then every order is produced).
     reachable_only: every nonterminal is reachable from the start symbol.
-    part=(i, n): only the grammars whose start symbol's alternative set has index = i mod n in the
-    size-sorted list of alternative sets (a partition of the space into n parts, for parallel workers).
+    part=(i, n): the i-th of n parts of the space (for parallel workers): the grammars for which
+    (7 * index of the start symbol's alternative set + index of the second nonterminal's alternative
+    set) = i mod n, indices in the size-sorted list of alternative sets.
     Deterministic order.  Yields dicts {nt: [tuple, ...]} (insertion order = nts order)."""
     nts = list(nts) if nts else [f"N{i}" for i in range(n_nt)]
     assert len(nts) == n_nt
@@ -345,19 +346,19 @@ def enumerate_grammars(n_nt, terminals, max_alts=2, max_rhs=2, max_total=None, n
     altsets.sort(key=lambda p: p[0])                # stable: keeps the canonical order inside a size
     start = nts[0]
 
-    def rec(i, left, acc):
+    def rec(i, left, acc, h=0):
         if i == n_nt:
-            G = {nts[j]: acc[j] for j in range(n_nt)}
+            G = {nts[j]: list(acc[j]) for j in range(n_nt)}
             if not reachable_only or len(reachable(G, start)) == n_nt:
                 yield G
             return
         for idx, (sz, alts) in enumerate(altsets):
             if sz > left:
                 break
-            if i == 0 and part is not None and idx % part[1] != part[0]:
+            if part is not None and i == min(1, n_nt - 1) and (7 * h + idx) % part[1] != part[0]:
                 continue
             acc.append(alts)
-            yield from rec(i + 1, left - sz, acc)
+            yield from rec(i + 1, left - sz, acc, idx if i == 0 else h)
             acc.pop()
 
     yield from rec(0, max_total, [])
